@@ -398,9 +398,20 @@ AnnProg(pn, sn, ind, use) ==
   IN IF ind \in {"implet", "impfn"}
      THEN [main |-> "m1", mods |-> [m \in {"m1", "g"} |-> IF m = "m1" THEN main ELSE ModG(ind, sh)]]
      ELSE [main |-> "m1", mods |-> [m \in {"m1"} |-> main]]
+\* a recursive declaration (a shared component) reached through an annotated alias: which resource is evaluated first
+RecAnnProg(order) ==
+  LET t == Ann(Let("t", Obj(<<Prop("kids", Arr(Var("t")))>>)), <<AnnE("description", "A", "s", "line")>>)
+      u == Ann(Let("u", Var("t")), <<AnnE("description", "B", "s", "line")>>)
+      rx == Res(Rel(Uri(<<Seg("x")>>), <<Xfer("get", Cnt(<<>>, <<Var("u")>>))>>))
+      ry == Res(Rel(Uri(<<Seg("y")>>), <<Xfer("get", Cnt(<<>>, <<Var("t")>>))>>))
+  IN [main |-> "m1", mods |-> [m \in {"m1"} |-> IF order = "alias-first" THEN <<t, u, rx, ry>> ELSE <<t, u, ry, rx>>]]
+RecAnnLabelled == {[l |-> <<"recann", o, "recdecl", "desc">>, p |-> RecAnnProg(o)] : o \in {"alias-first", "decl-first"}}
+
 AnnotsFamily == {AnnProg(pn, sn, ind, use) : pn \in AnnPositions, sn \in AnnShapeNames, ind \in AnnInds, use \in AnnUses}
+                \cup {x.p : x \in RecAnnLabelled}
 AnnotsLabelled == {[l |-> <<pn, sn, ind, IF ind = "direct" THEN "none" ELSE use>>, p |-> AnnProg(pn, sn, ind, use)]
                      : pn \in AnnPositions, sn \in AnnShapeNames, ind \in AnnInds, use \in AnnUses}
+                  \cup RecAnnLabelled
 
 AllPositions == {"body", "range", "domain", "headers", "media", "status", "reluri", "res", "xferlist", "proprhs", "objitem",
                  "arritem", "join", "any", "sum", "rangeop", "unary", "urivar", "apparg", "recbody", "refdecl", "concat"}
